@@ -82,6 +82,14 @@ def _offending(rng, pop):
                   ('set "{}" row 1 column 2'.format(name), None, 'unknown'),
                   ('set "{}" begin stage row 1 end'.format(name), None,
                    'unknown')]
+    forms += [('repeat in group "NoGroup" as zz begin set zz end', None,
+               'unknown'),
+              ('repeat in location "Nowhere" as zz begin on zz end', None,
+               'unknown'),
+              ('repeat in "Nobody" and location "Nowhere" as zz begin off zz '
+               'end', None, 'unknown'),
+              ('repeat in group "NoGroup" as zz with zv from 1 to 5 begin '
+               'set zz end', None, 'unknown')]
     forms += [('set group "NoGroup"', None, 'unknown'),
               ('on group "NoGroup"', None, 'unknown'),
               ('off location "Nowhere"', None, 'unknown'),
@@ -200,6 +208,13 @@ def gen(rng, tier, index, family=None, faulty_kind=None, mode=None):
                                      [:4 if faulty_kind else
                                       rng.randint(2, 4)])
     n = len(pop)
+    if rng.random() < 0.2:
+        # a bulb in a group and/or a location of its own, named after it
+        b = rng.choice(pop)
+        if rng.random() < 0.7:
+            b['location'] = b['label']
+        if rng.random() < 0.5:
+            b['group'] = b['label']
     idx = list(range(n))
     rng.shuffle(idx)
     plain_idx = [i for i in idx if _kind_of(pop[i]) == 'plain']
